@@ -147,6 +147,9 @@ func execute(t *testing.T, h Harness, job *Job, plan, sched *simrt.Source, keepL
 	if run.StateSig() != 0 || true {
 		cfg.StateSig = run.StateSig
 	}
+	if ph, ok := run.(interface{ OnPanic(v interface{}) bool }); ok {
+		cfg.OnPanic = ph.OnPanic
+	}
 	if sr, ok := run.(SeqRun); ok {
 		// Sequential code under test: no goroutines to schedule; the run draws
 		// its fault choices from the schedule source directly.
